@@ -13,6 +13,7 @@ THOROUGH_CAPS = [1, 2, 3, 5, 8, 16, 64]
 
 def all_builds():
     b = ["lock_stress.plain", "lock_stress.tsan", "lock_stress.asan", "lock_seq.plain",
+         "lock_stress.plain.spinalt", "lock_seq.plain.spinalt",
          "zipf_mon.plain", "zipf_mon.asanfatal", "zipf_mon.tsan"]
     b += ["thr_mon.plain.n%d" % n for n in QUICK_CAPS]
     b += ["thr_mon.asan.n%d" % n for n in (3, 8)]
@@ -49,13 +50,21 @@ def lock_jobs(rng, classes, profiles, runs_per_class, flavor="plain", ops_total=
     return jobs
 
 
-def seq_jobs(rng, classes, runs_per_class, programs=300, flavor="plain", hang_s=15, timeout=900):
+def seq_jobs(rng, classes, runs_per_class, programs=300, flavor="plain", hang_s=15, timeout=900, variant=""):
     jobs = []
     for cls in classes:
         for i in range(runs_per_class):
             args = {"cls": cls, "seed": rng.randrange(1, 2**31), "programs": programs, "chaos": i % 3,
                     "steps": rng.choice([8, 14, 14, 24]), "hang_s": hang_s}
-            jobs.append(Job("lock_seq.%s" % flavor, args, timeout=timeout, tag="seq/%s" % cls, cost=3))
+            build = "lock_seq.%s%s" % (flavor, ("." + variant) if variant else "")
+            jobs.append(Job(build, args, timeout=timeout, tag="seq/%s" % cls, cost=3))
+    return jobs
+
+
+def spinalt_jobs(rng, classes, profiles, runs, seq_runs=1):
+    """the second documented spin configuration (CPP_UTILITY_SPINLOCK_RETRY_NUM=1, CPP_UTILITY_BACKOFF_TIME=0)"""
+    jobs = lock_jobs(rng, classes, profiles, runs, variant="spinalt", chaos_choices=(2, 3))
+    jobs += seq_jobs(rng, classes, seq_runs, variant="spinalt")
     return jobs
 
 
@@ -93,6 +102,7 @@ def spec_C01(prop, tier, seed, t0):
     if tier == "quick":
         jobs = lock_jobs(rng, CLASSES, profs, 24)
         jobs += seq_jobs(rng, CLASSES, 5)
+        jobs += spinalt_jobs(rng, CLASSES, profs, 4)
     else:
         jobs = lock_jobs(rng, CLASSES, profs, 300, ops_total=40000, mcs_ops_total=10000)
         jobs += seq_jobs(rng, CLASSES, 60, programs=600)
@@ -146,6 +156,7 @@ def spec_C02(prop, tier, seed, t0):
         jobs += lock_jobs(rng, ["mcs"], ["xonly", "mixed", "convert", "sx"], 8, threads_choices=(16, 24),
                           mcs_ops_total=5000, chaos_choices=(2, 3))
         jobs += seq_jobs(rng, CLASSES, 3)
+        jobs += spinalt_jobs(rng, CLASSES, profs, 4)
     else:
         jobs = seq_jobs(rng, CLASSES, 60, programs=600)
         jobs += lock_jobs(rng, CLASSES, profs, 400, chaos_choices=(1, 2, 3, 3), ops_total=40000, mcs_ops_total=10000)
@@ -163,8 +174,11 @@ def spec_C03(prop, tier, seed, t0):
     jobs = lock_jobs(rng, ["opt"], profs, n, hold_choices=(0, 500, 2000, 20000), chaos_choices=(2, 3, 3),
                      ops_total=30000)
     jobs += seq_jobs(rng, ["opt"], 6 if tier == "quick" else 120, programs=300 if tier == "quick" else 600)
-    if tier != "quick":
+    if tier == "quick":
+        jobs += spinalt_jobs(rng, ["opt"], profs, 8, seq_runs=2)
+    else:
         jobs += lock_jobs(rng, ["opt"], profs, 200, variant="spinalt", chaos_choices=(2, 3))
+        jobs += seq_jobs(rng, ["opt"], 30, programs=400, variant="spinalt")
         jobs += lock_jobs(rng, ["opt"], profs, 100, flavor="asan", ops_total=10000)
     return _mk(prop, tier, seed, t0, jobs,
                {"opt_checks_ok": 5000, "opt_checks_failed": 500, "opt_windows_overlapping_an_exclusive_section": 200,
@@ -224,7 +238,10 @@ def spec_C13(prop, tier, seed, t0):
     jobs = lock_jobs(rng, ["opt"], profs, n, hold_choices=(2000, 20000, 50000), chaos_choices=(2, 3, 3),
                      threads_choices=(3, 4, 6, 8, 12), ops_total=20000)
     jobs += seq_jobs(rng, ["opt"], 6 if tier == "quick" else 120, programs=300 if tier == "quick" else 600)
-    if tier != "quick":
+    if tier == "quick":
+        jobs += spinalt_jobs(rng, ["opt"], profs, 8, seq_runs=2)
+    else:
+        jobs += seq_jobs(rng, ["opt"], 30, programs=400, variant="spinalt")
         jobs += lock_jobs(rng, ["opt"], profs, 300, variant="spinalt", hold_choices=(2000, 20000))
     return _mk(prop, tier, seed, t0, jobs, {"prepare_owning": 500, "prepare_optimistic": 5000, "op_PrepareRead": 200},
                rule=LOCK_RULE + SEQ_RULE)
